@@ -1,6 +1,7 @@
 package reputil
 
 import (
+	"github.com/sergeii/swat4master/verifharness/internal/world"
 	"sort"
 	"context"
 	"net"
@@ -49,7 +50,14 @@ func freeUDPPort() (int, error) {
 }
 
 func runWireHistoryOnce(args []string) []string {
-	w, release := FreshWorld()
+	wopts := world.DefaultOptions()
+	for _, op := range SplitOps(args) {
+		if len(op) == 3 && op[0] == "hold" {
+			wopts.ZeroLockBackoff = false // the real 100 ms back-off between lock attempts
+		}
+	}
+	w := world.New(wopts)
+	release := w.Close
 	defer release()
 	p := w.NewProc()
 	port, err := freeUDPPort()
@@ -88,6 +96,7 @@ func runWireHistoryOnce(args []string) []string {
 	}()
 	var out []string
 	prev := "-"
+	var patientUntil time.Time // while another writer holds a lock (op hold), silence does not yet mean "no answer"
 	buf := make([]byte, 4096)
 	for _, op := range SplitOps(args) {
 		if len(op) == 0 {
@@ -100,6 +109,20 @@ func runWireHistoryOnce(args []string) []string {
 				return []string{"bad-op"}
 			}
 			w.Advance(time.Duration(ns))
+		case "hold":
+			// hold <addr> <ms>: another writer (a prober recording an outcome, a second node) holds the server's lock for <ms> of
+			// REAL time from now on: the datagram that follows waits through the repository's back-off and is then handled as usual
+			ms, err := strconv.Atoi(op[2])
+			if err != nil || len(op) != 3 {
+				return []string{"bad-op"}
+			}
+			key := "servers:lock:" + op[1]
+			_ = w.MR.Set(key, "held-by-another-writer")
+			patientUntil = time.Now().Add(time.Duration(ms)*time.Millisecond + 450*time.Millisecond)
+			go func() {
+				time.Sleep(time.Duration(ms) * time.Millisecond)
+				w.MR.Del(key)
+			}()
 		case "dg":
 			if len(op) != 4 {
 				return []string{"bad-op"}
@@ -138,7 +161,7 @@ func runWireHistoryOnce(args []string) []string {
 					last, since = d, time.Now()
 					continue
 				}
-				if time.Since(since) > 60*time.Millisecond {
+				if time.Since(since) > 60*time.Millisecond && time.Now().After(patientUntil) {
 					break
 				}
 			}
